@@ -181,7 +181,8 @@ def run_case(desc, V):
                     claims.append(Fail(f'built-{bname}:raises', f'a multivector constructed with keys given as {bname} cannot be used as an operand: TypeError: {e}',
                                        fkey=f'forms|constructed|{bname}|raises'))
         # grade selections spelled in any order / with repetitions denote the same selection
-        for gs in ((2, 1), (1, 0), (1, 1), (2, 0, 1)):
+        # (also with MORE entries than the algebra has grades: the count of the arguments says nothing about the selection)
+        for gs in ((2, 1), (1, 0), (1, 1), (2, 0, 1), (0, 0), (1, 1, 1), (0, 1, 0, 1), (1, 1, 2), (1, 2, 2, 1), (0,) * (alg.d + 2), (1, 0) * (alg.d + 1), tuple(range(alg.d + 1)) * 2):
             if max(gs) > alg.d:
                 continue
             want = {k: v for k, v in A.items() if popcount(k) in gs}
